@@ -12,13 +12,13 @@ add_repo_to_path()
 
 PROPERTY = "C02"
 LEVEL = "exploration"
-TECHNIQUE = "Hypothesis-seeded generated programs with width-inferred operands, shadowing and bank crossings; per-statement agreement between the address/size seen in the label pass and at emission (run-time wrapping of every node class that has pc_after and emit), plus black-box self-pointer labels located in the output image, plus the reference model where all widths are explicit"
+TECHNIQUE = "Hypothesis-seeded generated programs with width-inferred operands, shadowing and bank crossings, one fifth of them from a binding-conflict generator (a few names bound several ways at several scope levels, named scopes in pieces, uses in between; model-free oracles only); per-statement agreement between the address/size seen in the label pass and at emission (run-time wrapping of every node class that has pc_after and emit), plus black-box self-pointer labels located in the output image, plus the reference model where all widths are explicit"
 RULE = (
     "programs with all statement kinds that occupy space (instructions with and without suffix whose operands are literals, := constants, backward/forward labels and names shadowed by an inner label / "
     "constant; .db/.dw/.dl/.pointer; .ascii; .incbin of 0..70000 bytes; macro applications; loops; .if), nested in blocks / named scopes / macros / loops, with *= / @= moves (ROM and RAM), placements hugging bank "
     "ends, LoROM and HiROM; labels are generated as self-pointers `lb: .dl lb`.  Oracle (accepted programs only): (1) for every node, address received in the label pass == address received at emission, and "
     "predicted advance == emitted byte count; (2) black box: for every listed label not under @=, the written image holds LE24(value) at map(value); .incbin start symbols point at the file's first bytes; (3) when "
-    "the reference model applies, label values equal the model's.  A rejected program is fine.  Non-trivial = accepted and (an unsized operand mentioning a symbol, or a bank crossing, or an @=); distinct by case hash."
+    "the reference model applies (not for the binding-conflict programs), label values equal the model's.  A rejected program is fine.  Non-trivial = accepted and (an unsized operand mentioning a symbol, or a bank crossing, or an @=); distinct by case hash."
 )
 LEVEL_TEXT = "Validity-predicate exploration: no predicted image is needed; each accepted program is checked statement by statement for label-pass / emission agreement and, black box, for self-pointer labels sitting where their value says."
 LEVEL_NOTE = ("Trusted: vlib/model/busmodel.py for map()/advance; the wrapper observes whatever node classes exist at run time (exit 2 if none is found). Width inference from symbol values admits several layouts, "
